@@ -88,27 +88,27 @@ type bmcEdge struct {
 
 // BMCSpec describes one interleaving obligation.
 type BMCSpec struct {
-	Setup    string   `json:"setup"`   // harness function creating the shared objects (returns one pointer)
-	Threads  []string `json:"threads"` // thread body functions: func(shared, tid int, choice int)
-	Steps    int      `json:"steps"`
-	Safe     string   `json:"safe"`     // harness predicate over the shared object: must hold in every state
-	NoDeadlock bool   `json:"no_deadlock"`
-	FinalOK  string   `json:"final"`    // optional predicate that must hold when all threads finished
-	TVOrder  []int    `json:"tv_order"` // translator validation: run the threads sequentially in this order (default 0,1,2,...)
-	Cubes    int      `json:"cubes"`    // cube-and-conquer: case split on the first Cubes scheduler choices (N^Cubes sub-queries per query)
+	Setup      string   `json:"setup"`   // harness function creating the shared objects (returns one pointer)
+	Threads    []string `json:"threads"` // thread body functions: func(shared, tid int, choice int)
+	Steps      int      `json:"steps"`
+	Safe       string   `json:"safe"` // harness predicate over the shared object: must hold in every state
+	NoDeadlock bool     `json:"no_deadlock"`
+	FinalOK    string   `json:"final"`    // optional predicate that must hold when all threads finished
+	TVOrder    []int    `json:"tv_order"` // translator validation: run the threads sequentially in this order (default 0,1,2,...)
+	Cubes      int      `json:"cubes"`    // cube-and-conquer: case split on the first Cubes scheduler choices (N^Cubes sub-queries per query)
 }
 
 type bmcCtx struct {
-	cellName map[int]string
-	chanName map[int]string
+	cellName   map[int]string
+	chanName   map[int]string
 	structName map[int]string
-	locs    []*bmcLoc
-	byKey   map[string]*bmcLoc
-	edges   []*bmcEdge
-	cellW   map[int]int
-	cellInit map[int]uint64
-	chanCap map[int]int
-	chanInit map[int]uint64
+	locs       []*bmcLoc
+	byKey      map[string]*bmcLoc
+	edges      []*bmcEdge
+	cellW      map[int]int
+	cellInit   map[int]uint64
+	chanCap    map[int]int
+	chanInit   map[int]uint64
 	// per path
 	active    bool
 	firstDone bool
@@ -1558,5 +1558,5 @@ func shortKey(k string) string {
 	return k
 }
 
-func now() time.Time             { return time.Now() }
+func now() time.Time            { return time.Now() }
 func since(t time.Time) float64 { return time.Since(t).Seconds() }
